@@ -78,6 +78,8 @@ type flow struct {
 	smsSentTo string
 	vals      *world.Values
 	now0      time.Time
+	// urlQuery: parsed URL query parameters of the next request (r.URL.Query()); nil = none
+	urlQuery map[string]string
 }
 
 const pidLen = 15 // long enough for both account identifiers
@@ -299,6 +301,8 @@ func (f *flow) symbolicSession() {
 
 func (f *flow) sval(k string) string { v, _ := f.w.Session.Lookup2(k); return v }
 
+func (f *flow) svalPre(k string) string { v, _ := f.preS.Lookup2(k); return v }
+
 // account returns the ghost record for pid, or nil.
 func (f *flow) account(pid string) *acct {
 	for _, a := range f.a {
@@ -348,6 +352,13 @@ func (f *flow) serve(route string, vals *world.Values, form map[string]string) (
 	r := world.Request(parts[0], parts[1], "")
 	for k, v := range form {
 		r.Form[k] = []string{v}
+	}
+	if f.urlQuery != nil {
+		q := url.Values{}
+		for k, v := range f.urlQuery {
+			q[k] = []string{v}
+		}
+		stubs.Queries[r.URL] = q
 	}
 	f.w.Body.Next = vals
 	panicked, pval = world.Try(func() { rec = f.w.Serve(h, r) })
